@@ -97,7 +97,27 @@ func parseDelivery(s string) delivery {
 	return d
 }
 
-func (d delivery) reader(stream []byte) *bufio.Reader {
+func (d delivery) reader(stream []byte) *bufio.Reader { return d.readerGated(stream, nil) }
+
+// gateReader parks its caller before the gate-th Read call of the underlying stream until released
+type gateReader struct {
+	r       io.Reader
+	calls   int
+	gate    int
+	reached chan struct{}
+	release chan struct{}
+}
+
+func (g *gateReader) Read(p []byte) (int, error) {
+	if g.calls == g.gate {
+		close(g.reached)
+		<-g.release
+	}
+	g.calls++
+	return g.r.Read(p)
+}
+
+func (d delivery) readerGated(stream []byte, g *gateReader) *bufio.Reader {
 	cr := &chunkReader{data: append([]byte(nil), stream...)}
 	switch {
 	case d.mode == "a":
@@ -120,6 +140,10 @@ func (d delivery) reader(stream []byte) *bufio.Reader {
 			}
 			cr.chunks = append(cr.chunks, n)
 		}
+	}
+	if g != nil {
+		g.r = cr
+		return bufio.NewReaderSize(g, d.buf)
 	}
 	return bufio.NewReaderSize(cr, d.buf)
 }
@@ -345,9 +369,9 @@ func restLen(br *bufio.Reader) int {
 	return int(n)
 }
 
-func implReadReq(stream []byte, d delivery) readOut {
+func implReadReq(stream []byte, d delivery) readOut { return implReadReqR(d.reader(stream)) }
+func implReadReqR(br *bufio.Reader) readOut {
 	return guard(func() readOut {
-		br := d.reader(stream)
 		r, err := rtsp.ReadRequest(br)
 		if err != nil {
 			return readOut{text: "err=" + errKind(err)}
@@ -358,9 +382,9 @@ func implReadReq(stream []byte, d delivery) readOut {
 	})
 }
 
-func implReadResp(stream []byte, d delivery) readOut {
+func implReadResp(stream []byte, d delivery) readOut { return implReadRespR(d.reader(stream)) }
+func implReadRespR(br *bufio.Reader) readOut {
 	return guard(func() readOut {
-		br := d.reader(stream)
 		r, err := rtsp.ReadResponse(br)
 		if err != nil {
 			return readOut{text: "err=" + errKind(err)}
@@ -372,8 +396,10 @@ func implReadResp(stream []byte, d delivery) readOut {
 }
 
 func implReadPkt(stream []byte, chans []int, d delivery) readOut {
+	return implReadPktR(d.reader(stream), chans)
+}
+func implReadPktR(br *bufio.Reader, chans []int) readOut {
 	return guard(func() readOut {
-		br := d.reader(stream)
 		p, err := rtp.ReadPacket(br, chans)
 		if err != nil {
 			if p != nil {
@@ -390,13 +416,15 @@ func implReadPkt(stream []byte, chans []int, d delivery) readOut {
 
 // the receive loop: events until the first error
 func implRecv(stream []byte, chans []int, d delivery) (events []string, errk string, panicked string) {
+	return implRecvR(d.reader(stream), chans)
+}
+func implRecvR(br *bufio.Reader, chans []int) (events []string, errk string, panicked string) {
 	defer func() {
 		if x := recover(); x != nil {
 			panicked = fmt.Sprint(x)
 			errk = "panic"
 		}
 	}()
-	br := d.reader(stream)
 	var last string
 	h := &srv.VerifReceiver{
 		OnRequest:  func(r *rtsp.Request) error { last = renderReq(r); return nil },
@@ -1068,6 +1096,134 @@ func runConcurrent(c *Ctx, items []item) {
 	}
 }
 
+// ---------------------------------------------------------------- readers running concurrently
+//
+// The same for the reading side: the server reads from many connections at once; what a
+// reader returns must depend on its own stream only.  Reader A is parked inside a Read call of
+// its connection (before the n-th one), reader B reads its whole stream meanwhile, A is
+// released; both results must be what the same reader returns for the same stream alone.
+
+type rjob struct {
+	kind   string // recv read-req read-resp read-pkt
+	stream []byte
+	chans  []int
+	d      delivery
+}
+
+func (j rjob) token() string {
+	return fmt.Sprintf("%s/%s/%s/%s", j.kind, j.d, intsCSV(j.chans), Hx(j.stream))
+}
+
+func parseRjob(tok string) *rjob {
+	f := strings.Split(tok, "/")
+	if len(f) != 4 {
+		return nil
+	}
+	return &rjob{kind: f[0], d: parseDelivery(f[1]), chans: parseIntsCSV(f[2]), stream: Unhx(f[3])}
+}
+
+func (j rjob) run(g *gateReader) string {
+	br := j.d.readerGated(j.stream, g)
+	switch j.kind {
+	case "recv":
+		evs, ek, _ := implRecvR(br, j.chans)
+		return fmt.Sprintf("events=%s err=%s", strings.Join(evs, "/"), ek)
+	case "read-req":
+		return implReadReqR(br).text
+	case "read-resp":
+		return implReadRespR(br).text
+	}
+	return implReadPktR(br, j.chans).text
+}
+
+func runRconc(a, b rjob, gate int) (oa, ob, aSeq, bSeq string, parked bool) {
+	aSeq, bSeq = a.run(nil), b.run(nil)
+	g := &gateReader{gate: gate, reached: make(chan struct{}), release: make(chan struct{})}
+	done := make(chan string, 1)
+	go func() { done <- a.run(g) }()
+	t := time.NewTimer(callBudget + callLongBudget)
+	defer t.Stop()
+	select {
+	case <-g.reached:
+		parked = true
+	case oa = <-done:
+		return oa, b.run(nil), aSeq, bSeq, false
+	case <-t.C:
+		return "hang", "-", aSeq, bSeq, false
+	}
+	ob = b.run(nil)
+	close(g.release)
+	select {
+	case oa = <-done:
+	case <-t.C:
+		oa = "hang"
+	}
+	return
+}
+
+func judgeRconc(c *Ctx, line string, oa, ob, aSeq, bSeq string, parked bool) {
+	c.Eval(line, true)
+	if parked {
+		c.Count("rconc-reader-parked-inside-message")
+	} else {
+		c.Count("rconc-reader-finished-before-gate")
+	}
+	if oa == "hang" {
+		hungCase = line
+		c.Find(Finding{Kind: "oracle", Class: "reader-does-not-terminate", Case: line, Impl: "no result after " + (callBudget + callLongBudget).String(), Spec: "a message, a frame or an error"})
+		return
+	}
+	if oa != aSeq {
+		c.Find(Finding{Kind: "oracle", Class: "concurrent-readers-interfere", Case: line, Impl: trunc(oa, 300), Spec: trunc(aSeq, 300),
+			Detail: "the reader that was suspended inside a Read of its connection while another connection was read returned something else than when it runs alone"})
+	}
+	if ob != bSeq {
+		c.Find(Finding{Kind: "oracle", Class: "concurrent-readers-interfere", Case: line, Impl: trunc(ob, 300), Spec: trunc(bSeq, 300),
+			Detail: "the stream read while another reader was suspended gave something else than when it is read alone"})
+	}
+}
+
+func runConcurrentReaders(c *Ctx, cases []rcase) {
+	var jobs []rjob
+	for i := range cases {
+		k := &cases[i]
+		if k.implOnly || len(k.stream) < 8 || len(k.stream) > 6000 {
+			continue
+		}
+		jobs = append(jobs, rjob{kind: k.kind, stream: k.stream, chans: k.chans, d: k.d})
+		if len(jobs) >= 6000 {
+			break
+		}
+	}
+	if len(jobs) < 2 {
+		return
+	}
+	n := c.Budget(600, 6000)
+	old := runtime.GOMAXPROCS(0)
+	for i := 0; i < n && hungCase == ""; i++ {
+		a, b := jobs[c.Rng.Intn(len(jobs))], jobs[c.Rng.Intn(len(jobs))]
+		// the suspended reader sees its stream through a small bufio buffer, so that there are
+		// several Read calls to be suspended in
+		if c.Rng.Chance(70) {
+			a.d.buf = []int{16, 64}[c.Rng.Intn(2)]
+		}
+		gate := c.Rng.Intn(1 + len(a.stream)/a.d.buf + 3)
+		if c.Rng.Chance(30) {
+			gate = c.Rng.Intn(4)
+		}
+		if c.Rng.Chance(25) { // byte-wise delivery: suspended inside a frame prefix / a start line
+			a.d.mode = "1"
+			gate = 1 + c.Rng.Intn(8)
+		}
+		if i == n/2 {
+			runtime.GOMAXPROCS(1)
+		}
+		oa, ob, as, bs, parked := runRconc(a, b, gate)
+		judgeRconc(c, fmt.Sprintf("c14 rconc %d %s %s", gate, a.token(), b.token()), oa, ob, as, bs, parked)
+	}
+	runtime.GOMAXPROCS(old)
+}
+
 // ---------------------------------------------------------------- negative streams
 
 func longLine(n int, b byte) []byte { return bytes.Repeat([]byte{b}, n) }
@@ -1235,6 +1391,16 @@ func runRound(c *Ctx, round int) {
 				runtime.GOMAXPROCS(old)
 				judgeConc(c, l, runConc(a, b, gate))
 			}
+		case f[1] == "rconc" && len(f) == 5:
+			gate, _ := strconv.Atoi(f[2])
+			if a, b := parseRjob(f[3]), parseRjob(f[4]); a != nil && b != nil {
+				old := runtime.GOMAXPROCS(1)
+				oa, ob, as, bs, parked := runRconc(*a, *b, gate)
+				judgeRconc(c, l, oa, ob, as, bs, parked)
+				runtime.GOMAXPROCS(old)
+				oa, ob, as, bs, parked = runRconc(*a, *b, gate)
+				judgeRconc(c, l, oa, ob, as, bs, parked)
+			}
 		case f[1] == "recv" && len(f) == 6:
 			cases = append(cases, rcase{kind: "recv", d: parseDelivery(f[2]), chans: parseIntsCSV(f[3]), stream: Unhx(f[5]), restWant: -1, tag: "corpus"})
 		case f[1] == "read" && len(f) >= 5:
@@ -1378,6 +1544,10 @@ func runRound(c *Ctx, round int) {
 	// ---- writers running concurrently (implementation only: compared with the same writer running alone)
 	if c.Replay == "" {
 		runConcurrent(c, items)
+		if hungCase != "" {
+			return
+		}
+		runConcurrentReaders(c, cases)
 		if hungCase != "" {
 			return
 		}
